@@ -228,7 +228,7 @@ import threading
 _TLC_SLOTS = threading.BoundedSemaphore(12)      # at most 12 single-worker TLC processes at a time (16 cores, 62 GB)
 
 
-def shard_trace(trace_file, max_events=50000, max_shards=24):
+def shard_trace(trace_file, tag, max_events=50000, max_shards=24):
     """Split an ndjson trace at case boundaries into files of about max_events lines.
     Cases are independent of each other (every case event carries its schema and configuration).
     Returns [(path, line_offset)]; the file itself when it is small."""
@@ -248,7 +248,7 @@ def shard_trace(trace_file, max_events=50000, max_shards=24):
     cuts.append(len(lines))
     out = []
     for k in range(len(cuts) - 1):
-        path = "%s.shard%02d" % (trace_file, k)
+        path = "%s.%s.shard%02d" % (trace_file, tag, k)      # one set of files per validation run (several run concurrently on one trace)
         with open(path, "w") as g:
             g.writelines(lines[cuts[k]:cuts[k + 1]])
         out.append((path, cuts[k]))
@@ -258,7 +258,7 @@ def shard_trace(trace_file, max_events=50000, max_shards=24):
 def tlc_trace_sharded(name, module, trace_file, cfg_text=None, devs="", timeout=1500, heap="3g", extra_env=None):
     """tlc_trace over the shards of a big trace, in parallel; positions are mapped back to lines of trace_file."""
     import concurrent.futures
-    shards = shard_trace(trace_file)
+    shards = shard_trace(trace_file, name)
 
     def one(k, path):
         with _TLC_SLOTS:
